@@ -266,7 +266,10 @@ func runSysCase(c *Ctx, sc sysCase, tape *simrt.Tape) sysOutcome {
 	if out.fired == 0 {
 		// control run (or the fault index lies beyond this schedule): everything must have worked
 		if lastRes.OpenErr != nil || len(lastRes.Stopped) > 0 || lastRes.SchedErr != nil || lastRes.CloseErr != nil {
-			panic(fmt.Sprintf("faultsim control run failed (outside this check's claim): open=%v stopped=%v sched=%v close=%v", lastRes.OpenErr, lastRes.Stopped, lastRes.SchedErr, lastRes.CloseErr))
+			// no fault fired, yet a session failed: not this property's subject, but a violation all the same (C01: on
+			// valid workloads no flush or compaction cycle ever fails or terminates the process) - reported as such
+			what := fmt.Sprintf("open=%v stopped=%v sched=%v close=%v", lastRes.OpenErr, lastRes.Stopped, lastRes.SchedErr, lastRes.CloseErr)
+			add("C01:fault-free-run-failed|"+normErr(errors.New(what)), "a run of the fault arm in which no fault fired failed: "+what)
 		}
 		return out
 	}
@@ -300,6 +303,25 @@ func runSysCase(c *Ctx, sc sysCase, tape *simrt.Tape) sysOutcome {
 	state := "reported"
 	if !reported {
 		state = "absorbed"
+		// The statement itself: a failing read or write system call of a flush or compaction makes the operation
+		// return an error or stops the process. When the session in which the fault fired ran to the end of a clean
+		// Close (so nothing was cut short by the harness) and no call, no Close and no later Open reported anything,
+		// the failure was absorbed - whatever is on disk afterwards.
+		faultSession := -1
+		for _, e := range trace {
+			if e.Kind == simrt.EvMark && e.Note == "open" {
+				faultSession++
+			}
+			if e.Kind == simrt.EvFault {
+				break
+			}
+		}
+		cut := faultSession < 0 || faultSession >= len(sc.DB.Sessions) || sc.DB.Sessions[faultSession].NoClose
+		if !cut && (strings.HasPrefix(out.kind, "write:") || strings.HasPrefix(out.kind, "read:")) {
+			add("fault-not-reported|"+digits.ReplaceAllString(out.kind, "N"), fmt.Sprintf("injected %s: no call returned an error, the process did not stop, Close and the next Open succeeded: the failure of a background flush or compaction was absorbed", faultDesc))
+		} else {
+			c.Count("probe:fault-not-reported-"+map[bool]string{true: "in-a-session-the-harness-killed", false: "create-rename-fsync"}[cut], 1)
+		}
 	}
 	if rec.openErr != nil {
 		add("after-fault|open-error:"+normErr(rec.openErr)+"|"+state+"|"+out.kind, fmt.Sprintf("injected %s (%s): re-opening the directory afterwards fails: %v [%s]", faultDesc, state, rec.openErr, tags))
@@ -406,6 +428,9 @@ func faultsimMain(c *Ctx) {
 		ctl := runSysCase(c, sysCase{DB: dc, N: -1}, simrt.NewTape(seed))
 		c.Res.Evaluations++
 		c.Count("eligible-background-syscalls", ctl.eligible)
+		for _, v := range ctl.vs {
+			reportSys(c, v, seed, sysCase{DB: dc, N: -1})
+		}
 		if ctl.eligible == 0 {
 			continue
 		}
@@ -420,7 +445,7 @@ func faultsimMain(c *Ctx) {
 		}
 		c.Sample(map[string]any{"run_seed": seed, "keys": len(dc.Keys), "sessions": summarizeSessions(dc), "eligible_background_syscalls": ctl.eligible, "fault_positions_tried": len(idx)})
 		for _, n := range idx {
-			if !c.TimeLeft() && !c.Thorough() {
+			if c.MemoryHigh() || (!c.TimeLeft() && !c.Thorough()) {
 				break
 			}
 			sc := sysCase{DB: dc, N: n, Errno: pick(r, "EIO", "ENOSPC")}
@@ -432,7 +457,7 @@ func faultsimMain(c *Ctx) {
 			c.Res.Evaluations++
 			c.RunHash(nil, seed, n, out.fired, out.stopped, out.kind, len(out.vs))
 			if out.fired > 0 {
-				c.Count("fault:"+out.kind, 1)
+				c.Count("fault:"+digits.ReplaceAllString(out.kind, "N"), 1)
 				c.Distinct(hash64("sys", seed, n))
 				if out.stopped {
 					c.Count("probe:process-stopped-after-fault", 1)
@@ -441,10 +466,19 @@ func faultsimMain(c *Ctx) {
 				}
 			}
 			for _, v := range out.vs {
-				c.Report(Violation{Sig: v.sig, Detail: v.detail}, &ReplayFile{RunSeed: seed, Case: mustJSON(sc)})
+				reportSys(c, v, seed, sc)
 			}
 		}
 	}
+}
+
+// reportSys files a violation of the system arm; signatures prefixed "C01:" belong to that property (fault-free failure).
+func reportSys(c *Ctx, v dbViolation, seed int64, sc sysCase) {
+	prop := ""
+	if strings.HasPrefix(v.sig, "C01:") {
+		prop = "C01"
+	}
+	c.Report(Violation{Property: prop, Sig: v.sig, Detail: v.detail}, &ReplayFile{RunSeed: seed, Case: mustJSON(sc)})
 }
 
 func faultsimReplay(c *Ctx, rf *ReplayFile) []Violation {
